@@ -42,11 +42,13 @@ func main() {
 	case "schemas":
 		runSchemas(*outDir, *n, *seed, *tier)
 	case "gen":
+		code := runGen(*dir)
 		out.Flush()
-		os.Exit(runGen(*dir))
+		os.Exit(code)
 	case "decls":
+		code := runDecls(*dir)
 		out.Flush()
-		os.Exit(runDecls(*dir))
+		os.Exit(code)
 	default:
 		fmt.Fprintln(os.Stderr, "unknown mode")
 		os.Exit(2)
